@@ -276,8 +276,29 @@ def regroup_verbose(tx, exp):
         tx['algs'][cat] = out
 
 
+_BITS = re.compile(r'(\d{3,5})-bit')
+_TABLE_NOTES = None
+
+
+def canon(t):
+    """Note text -> what is compared.  Texts that come from the rating tables are compared as they are (expected and observed both read
+    the live tables).  Notes the code *generates* (size notes, the Terrapin warning, the fallback notes, CA notes) are compared by what
+    the properties speak of - their severity level (the caller compares per level), how many there are, and the size they name - not
+    by their wording, so that rewording such a message is not reported as a violation."""
+    global _TABLE_NOTES
+    m = _BITS.search(t)
+    if m:
+        return 'GENERATED(%s-bit)' % m.group(1)
+    if _TABLE_NOTES is None:
+        db = tables()['db2']
+        _TABLE_NOTES = {x for cat in db for e in db[cat].values() for lv in ('fail', 'warn', 'info') for x in e.get(lv, [])} | {'', 'unknown algorithm', 'using unknown algorithm'}
+    if t in _TABLE_NOTES or t.startswith('available since') or t.startswith('default '):
+        return t
+    return 'GENERATED'
+
+
 def multiset(xs):
-    return sorted(xs)
+    return sorted(canon(x) for x in xs)
 
 
 def notes_of_text(alg):
@@ -368,7 +389,7 @@ def _note_kind(l, c, cat):
 
 
 TERRAPIN = 'vulnerable to the Terrapin attack (CVE-2023-48795), allowing message prefix truncation'
-ADVISORY_RE = re.compile(r'The following algorithms would allow an unpatched peer to create vulnerable SSH channels with this target: (.*?)\.  If any CBC')
+ADVISORY_RE = re.compile(r'with this target: (.*?)\.\s+[A-Z]')       # the list of names is what is compared, not the prose around it
 
 
 def compare_terrapin(c, exp, text=None, js=None):
@@ -385,7 +406,7 @@ def compare_terrapin(c, exp, text=None, js=None):
                         '%s:%s %s the Terrapin warning (rule: warned = %s)' % (cat, l['name'], 'lacks' if what == 'missing' else 'carries',
                                                                              sorted('%s:%s' % (a, exp['lines'][a][b]['name']) for a, b in want))))
     if text is not None:
-        got = {(cat, i) for cat in cats for i, a in enumerate(text['algs'][cat]) if any(t == TERRAPIN for _, t in a['notes'])}
+        got = {(cat, i) for cat in cats for i, a in enumerate(text['algs'][cat]) if any(lv == 'warn' and 'terrapin' in t.lower() for lv, t in a['notes'])}
         diff(got, 'text')
         adv = [m.group(1).split(', ') for n in text['nfo'] for m in [ADVISORY_RE.search(n)] if m]
         gadv = adv[0] if adv else []
@@ -397,7 +418,7 @@ def compare_terrapin(c, exp, text=None, js=None):
     if js is not None:
         ja = report.json_algs(js)
         got = {(cat, i) for cat in cats for i, a in enumerate([x for x in ja[cat] if (x['name'] or '').strip()])
-               if TERRAPIN in (a['notes'].get('warn') or [])}
+               if any('terrapin' in (t or '').lower() for t in (a['notes'].get('warn') or []))}
         diff(got, 'json')
         adv = [m.group(1).split(', ') for n in js.get('additional_notes', []) for m in [ADVISORY_RE.search(n)] if m]
         gadv = adv[0] if adv else []
